@@ -9,7 +9,8 @@
     is the word of a node of the full tree whose pre-order index is idx. *)
 From Coq Require Import ZArith List Bool String.
 From Low Require Import Lib.Bits Lib.BitSeq Lib.Lex Lib.Bytes Lib.Val
-  Spec.Bmtree Spec.IndexToPathSpec Model.BmtreePath Model.BmtreeIndex Model.BmtreeIndexToPath.
+  Spec.Bmtree Spec.PathSpec Spec.IndexToPathSpec Spec.IndexToPathWideSpec
+  Model.BmtreePath Model.BmtreePathStr Model.BmtreeIndex Model.BmtreeIndexToPath.
 Import ListNotations.
 Open Scope string_scope.
 Open Scope Z_scope.
@@ -71,4 +72,69 @@ Definition op_inverse : opdef :=
            | _, _ => VBad end
        | _ => VBad end) |}.
 
-Definition ops_C05 : list opdef := [ op_index_to_path; op_inverse ].
+(** widened (step 4): the accessors applied to IndexToPath's result *)
+Definition op_fields : opdef :=
+  {| op_name := "bmtree.IndexToPath/fields";
+     op_run := fun a => match a with
+       | [h; idx] => match as_z h, as_z idx with
+           | Some h, Some idx =>
+               if c05_dom h idx then
+                 match IndexToPath h idx with
+                 | Some w => VL [VZ (PathLen w); VZ (PathHeight w); VZ (PathBits w); VZ (PathMask w); vzs (PathStr w)]
+                 | None => VPanic end
+               else VBad
+           | _, _ => VBad end
+       | _ => VBad end;
+     op_spec := fun_spec (fun a => match a with
+       | [h; idx] => match as_z h, as_z idx with
+           | Some h, Some idx =>
+               let '(pl, ph, pb, pm, ps) := spec_fields (Z.to_nat h) idx in
+               VL [VZ pl; VZ ph; VZ pb; VZ pm; vzs ps]
+           | _, _ => VBad end
+       | _ => VBad end) |}.
+
+(** the numeric order of two results *)
+Definition op_order : opdef :=
+  {| op_name := "bmtree.IndexToPath/order";
+     op_run := fun a => match a with
+       | [h; i; j] => match as_z h, as_z i, as_z j with
+           | Some h, Some i, Some j =>
+               if c05_dom h i && c05_dom h j then
+                 match IndexToPath h i, IndexToPath h j with
+                 | Some wi, Some wj => VZ (cmp_sign (wi ?= wj))
+                 | _, _ => VPanic end
+               else VBad
+           | _, _, _ => VBad end
+       | _ => VBad end;
+     op_spec := fun_spec (fun a => match a with
+       | [h; i; j] => match as_z i, as_z j with
+           | Some i, Some j => VZ (spec_order i j)
+           | _, _ => VBad end
+       | _ => VBad end) |}.
+
+(** PathToIndexLoose on the full tree, then IndexToPath back *)
+Definition op_loose_full : opdef :=
+  {| op_name := "bmtree.PathToIndexLoose/full";
+     op_run := fun a => match a with
+       | [h; q] => match as_z h, c05_node q with
+           | Some h, Some q =>
+               if (0 <=? h) && (h <=? 30) && (zlen q <=? h) then
+                 let w := NewPath (valL (Z.to_nat h) q) (zlen q) h in
+                 match PathToIndexLoose (2 ^ (h + 1) - 1) w with
+                 | Some (i, has) =>
+                     match IndexToPath h i with
+                     | Some w' => VL [VZ i; VZ has; VZ w']
+                     | None => VPanic end
+                 | None => VPanic end
+               else VBad
+           | _, _ => VBad end
+       | _ => VBad end;
+     op_spec := fun_spec (fun a => match a with
+       | [h; q] => match as_z h, c05_node q with
+           | Some h, Some q =>
+               let hn := Z.to_nat h in
+               let '(i, has) := spec_loose_full hn q in VL [VZ i; VZ has; VZ (enc hn q)]
+           | _, _ => VBad end
+       | _ => VBad end) |}.
+
+Definition ops_C05 : list opdef := [ op_index_to_path; op_inverse; op_fields; op_order; op_loose_full ].
